@@ -18,7 +18,7 @@ HANG = 5.0          # hang bound of every client-side call (seconds)
 
 # ----------------------------------------------------------------------------- process pool
 
-def worker_main(tq, rq, logdir):
+def worker_main(tq, rq, logdir, stop):
     L.setup_env()
     try:
         log = open(os.path.join(logdir, 'worker-%d.log' % os.getpid()), 'ab', buffering=0)
@@ -37,6 +37,9 @@ def worker_main(tq, rq, logdir):
         if item is None:
             break
         i, fn, arg = item
+        if stop.is_set():                   # the budget of the replay is used up: the rest is not played
+            rq.put((i, ('skipped', None)))
+            continue
         try:
             res = ('ok', globals()[fn](arg))
         except BaseException:  # noqa
@@ -44,15 +47,18 @@ def worker_main(tq, rq, logdir):
         rq.put((i, res))
 
 
-def pool_map(fn, tasks, logdir, nproc=12, task_timeout=150):
-    """Run globals()[fn](task) for every task in `nproc` spawn'ed processes; results in task order."""
+def pool_map(fn, tasks, logdir, nproc=12, task_timeout=150, budget=None):
+    """Run globals()[fn](task) for every task in `nproc` spawn'ed processes; results in task order.
+    `budget` (seconds): when it is used up no further task is started; tasks not played come back as None
+    (a tree on which every hang-bounded step runs into its bound must not turn a quick check into hours)."""
     if not tasks:
         return []
     L.setup_env()
     ctx = mp.get_context('spawn')
     tq, rq = ctx.Queue(), ctx.Queue()
+    stop = ctx.Event()
     n = min(nproc, len(tasks))
-    procs = [ctx.Process(target=worker_main, args=(tq, rq, logdir), daemon=False) for _ in range(n)]
+    procs = [ctx.Process(target=worker_main, args=(tq, rq, logdir, stop), daemon=False) for _ in range(n)]
     for p in procs:
         p.start()
     for i, t in enumerate(tasks):
@@ -60,22 +66,32 @@ def pool_map(fn, tasks, logdir, nproc=12, task_timeout=150):
     for _ in procs:
         tq.put(None)
     out = {}
+    t_start = time.time()
     try:
         while len(out) < len(tasks):
+            if budget is not None and not stop.is_set() and time.time() - t_start > budget:
+                stop.set()
             try:
-                i, res = rq.get(timeout=task_timeout)
+                i, res = rq.get(timeout=5.0 if (budget is not None and not stop.is_set()) else task_timeout)
             except queue.Empty:
+                if budget is not None and not stop.is_set():
+                    if time.time() - t_start > budget + task_timeout:
+                        raise MachineryError('replay pool: no result within %d s (%d of %d done)' % (task_timeout, len(out), len(tasks)))
+                    continue
                 raise MachineryError('replay pool: no result within %d s (%d of %d done)' % (task_timeout, len(out), len(tasks)))
             if res[0] == 'error':
                 raise MachineryError('replay scenario failed inside the harness:\n' + res[1])
-            out[i] = res[1]
+            out[i] = res[1] if res[0] == 'ok' else None
     finally:
         t0 = time.time()
         for p in procs:
             p.join(max(0.0, 3.0 - (time.time() - t0)))
         for p in procs:
-            if p.is_alive():
-                L.reap_tree(p.pid)
+            if p.is_alive():            # our own, un-reaped child: its pid cannot have been recycled
+                kids = L.descendants(p.pid)
+                p.kill()
+                p.join(2.0)
+                L.kill_pids([k for k in kids if L.cmd_of(k).find('multiprocessing') >= 0])
     return [out[i] for i in range(len(tasks))]
 
 
@@ -113,7 +129,7 @@ class Srv:
         self.seen = set()
 
     def alive(self):
-        return L.pid_alive(self.pid)
+        return L.pid_alive(self.pid, self.tag)
 
     def note_descendants(self):
         d = L.descendants(self.pid)
@@ -140,11 +156,11 @@ class Srv:
 
     def destroy(self):
         self.note_descendants()
-        left = L.reap_tree(self.pid, self.seen)
+        left = L.reap_tree(self.pid, self.seen, tag=self.tag)
         stray = [p for p in L.tagged_pids(self.tag)]
         if stray:
-            L.kill_pids(stray)
-            left = left + L.await_dead(stray, 2.0)
+            L.kill_pids(stray, tag=self.tag)
+            left = left + L.await_dead(stray, 2.0, tag=self.tag)
         return left
 
 
@@ -234,8 +250,15 @@ def scenario_c11(scn):
                 raise MachineryError('C11 set-up: the healthy context worker does not run the context target')
             return ctx, hp, first, ho, hc
         r = L.bounded(setup, 25)
+        if r[0] == 'raised' and isinstance(r[1], MachineryError):
+            raise r[1]
         if r[0] != 'ok' or r[1][2] != 41:
-            raise MachineryError('C11 set-up (healthy clients on a fresh server) failed: %r' % (r,))
+            # a fresh server that does not serve well-behaved clients: an observation (no fault was needed), not a harness failure
+            obs['fresh'].append({'got': 'setup:' + (L.tag(r) if r[0] != 'ok' else 'v:%s' % (r[1][2],)), 'want': 'setup:served'})
+            obs['srv_alive'] = 'T' if srv.alive() else 'F'
+            notes['server_error'] = srv.last_error()
+            return {'id': scn['id'], 'prop': 'C11', 'scn': {'faults': []}, 'obs': obs, 'notes': notes, 'faults_full': [],
+                    'con': bool(scn.get('con'))}
         ctx, hp, _, ho, hc = r[1]
         srv.note_descendants()
         for k, f in enumerate(scn['faults']):
@@ -386,7 +409,7 @@ def scenario_c18(scn):
             while pend and time.time() - t0 < HANG:
                 for w, wo in list(pend.items()):
                     a = L.bounded(wo.is_alive, HANG)
-                    if a == ('ok', False) and not L.pid_alive(wo.pid):
+                    if a == ('ok', False) and not L.pid_alive(wo.pid, srv.tag):
                         del pend[w]
                 if pend:
                     time.sleep(0.05)
@@ -664,7 +687,7 @@ def scenario_c12(scn):
         else:
             os.kill(srv.pid, signal.SIGTERM)
             notes['stop'] = 'signalled'
-        gone = not L.await_dead([srv.pid], 8.0)
+        gone = not L.await_dead([srv.pid], 8.0, tag=srv.tag)
         notes['stop_s'] = round(time.time() - t0, 2)
         obs['srv_dead'] = 'T' if gone else 'F'
         # "shortly afterwards": every process that descends from the server (found by an environment tag, so
@@ -692,7 +715,7 @@ def scenario_c12(scn):
             rh = L.bounded(lambda: o.has_error, HANG)
             re_ = L.bounded(lambda: _error_kind(o), HANG)
             blocked = any(x[0] == 'hang' for x in (rw, ra, rh, re_))
-            obs['kids'].append({'os_dead': 'F' if (pids[i] and L.pid_alive(pids[i])) else 'T',
+            obs['kids'].append({'os_dead': 'F' if (pids[i] and L.pid_alive(pids[i], tagv)) else 'T',
                                 'wait': L.tag(rw), 'alive': L.tag(ra), 'has_error': L.tag(rh),
                                 'error': re_[1] if re_[0] == 'ok' else L.tag(re_), 'blocked': 'T' if blocked else 'F'})
         notes['server_error'] = srv.last_error()
@@ -705,7 +728,7 @@ def scenario_c12(scn):
                 pass
         if raw is not None:
             raw.vanish('rst')
-        L.kill_pids([p for p in L.tagged_pids(tagv)])
+        L.kill_pids([p for p in L.tagged_pids(tagv)], tag=tagv)
         notes['unkillable'] = srv.destroy()
     return {'id': scn['id'], 'prop': 'C12',
             'scn': {'how': scn['how'], 'racer': scn.get('racer') or 'none',
